@@ -12,12 +12,20 @@ def has_sig(world, res, sig):
     return any(signature(world.PROPERTY, v) == sig for v in res["violations"])
 
 
+def _step(o, p):
+    if isinstance(o, dict):
+        return o.get(p)
+    if isinstance(o, list) and p.isdigit() and int(p) < len(o):
+        return o[int(p)]
+    return None
+
+
 def _get(plan, path):
     o = plan
     for p in path.split("."):
         if o is None:
             return None
-        o = o.get(p) if isinstance(o, dict) else None
+        o = _step(o, p)
     return o
 
 
@@ -25,8 +33,11 @@ def _set(plan, path, val):
     ps = path.split(".")
     o = plan
     for p in ps[:-1]:
-        o = o[p]
-    o[ps[-1]] = val
+        o = _step(o, p)
+    if isinstance(o, list):
+        o[int(ps[-1])] = val
+    else:
+        o[ps[-1]] = val
 
 
 def ddmin(items, test, deadline):
